@@ -18,6 +18,9 @@ Proof.
   rewrite (IH Hc). destruct o; simpl in *; try discriminate; reflexivity.
 Qed.
 
+Lemma puts_adds l : puts_commit (map OAdd l) = [].
+Proof. induction l; simpl; auto. Qed.
+
 Lemma puts_quiet_chain cs : Forall (fun c => forallb quiet c = true) cs -> puts cs = [].
 Proof. induction cs as [|c cs IH]; simpl; intros H; [reflexivity|]. inversion H; subst. rewrite puts_quiet, IH; auto. Qed.
 
@@ -60,7 +63,7 @@ Proof.
     unfold start_if_ready.
     set (st1 := if s_bypass st then st_ctl st false (s_jump_count st) (s_buffered st) (s_signal st) else st).
     assert (s_status st1 = s_status st) as E1 by (unfold st1; destruct (s_bypass st); reflexivity).
-    set (zombie := status_eqb (s_status st1) RUNNING && (s_plan_pending st1 || is_nil (s_tasks st1))).
+    set (zombie := status_eqb (s_status st1) RUNNING && (s_plan_pending st1 || (is_nil (s_tasks st1) && is_nil (children s i)))).
     destruct (negb (start_stage_fresh (s_status st1)) && negb zombie) eqn:E0; [intros []|].
     destruct (should_skip st1). { simpl. intros []. }
     destruct (mutex_blocked s i st1). { simpl. intros []. }
@@ -84,8 +87,8 @@ Proof.
       * destruct zombie; simpl in H; destruct H.
     + (* plan commit *)
       unfold txn, c_put, c_mark in H. cbn [concat app] in H.
-      change (OPut i ?x :: OMark id :: ?r) with ([OPut i x; OMark id] ++ r) in H.
-      rewrite puts_commit_app in H. simpl in H.
+      change (OPut i ?x :: ?r) with ([OPut i x] ++ r) in H.
+      rewrite !puts_commit_app, puts_adds in H. simpl in H.
       destruct H as [H|H].
       * inversion H; subst. split; [reflexivity|].
         destruct zombie eqn:Z.
